@@ -19,6 +19,8 @@ use std::{io::Write, panic::AssertUnwindSafe, time::Duration};
 const COMP: u128 = 16;
 /// first input number >= REMOTE marks a remote case (number of initial subscribers + REMOTE)
 const REMOTE: u128 = 100;
+/// remote case whose receiving endpoint has small port buffers (number of initial subscribers + REMOTE_SMALL)
+const REMOTE_SMALL: u128 = 200;
 
 type Rx = broadcast::Receiver<u64, codec::Default, 2>;
 
@@ -282,7 +284,7 @@ fn exec_local(caps: &[usize], ops: &[Op]) -> Outcome {
 /// Remote subscribers: every receiver is sent over a chmux connection (harness transport,
 /// automatic delivery) and used on the other side.  The remote side adds buffers the model does
 /// not describe, so only the oracle is evaluated.
-fn exec_remote(caps: &[usize], ops: &[Op]) -> Outcome {
+fn exec_remote(caps: &[usize], ops: &[Op], small: bool) -> Outcome {
     let rt = new_rt();
     rt.block_on(async move {
         let net = Net::new(true);
@@ -290,7 +292,13 @@ fn exec_remote(caps: &[usize], ops: &[Op]) -> Outcome {
         // sender after a few items; the credit-based port buffers keep their default size
         let cfg = || remoc::Cfg { connection_timeout: None, shared_send_queue: 1, transport_send_queue: 1, transport_receive_queue: 1, ..Default::default() };
         let a = remoc::Connect::framed::<_, _, Rx, (), codec::Default>(cfg(), net.a2b.sink(), net.b2a.stream());
-        let b = remoc::Connect::framed::<_, _, (), Rx, codec::Default>(cfg(), net.b2a.sink(), net.a2b.stream());
+        // `small`: the receiving endpoint grants few credits per port, so that a remote subscriber that does not
+        // consume makes its forwarder lag after a few values without the transport being stalled
+        let mut cfg_b = cfg();
+        if small {
+            cfg_b.receive_buffer = 32;
+        }
+        let b = remoc::Connect::framed::<_, _, (), Rx, codec::Default>(cfg_b, net.b2a.sink(), net.a2b.stream());
         let (ra, rb) = tokio::join!(a, b);
         let (conn_a, mut rx_tx, _): (_, base::Sender<Rx, codec::Default>, base::Receiver<(), codec::Default>) =
             ra.map_err(|e| e.to_string()).expect("connect a");
@@ -310,11 +318,14 @@ fn exec_remote(caps: &[usize], ops: &[Op]) -> Outcome {
         macro_rules! ship {
             ($c:expr, $start:expr) => {{
                 let rx: Rx = tx.subscribe($c);
-                if let Err(e) = rx_tx.send(rx).await {
+                // sent and taken out concurrently: with small port buffers the send completes only while the other
+                // endpoint receives
+                let (sres, rres) = tokio::join!(rx_tx.send(rx), tokio::time::timeout(Duration::from_secs(1), rx_rx.recv()));
+                if let Err(e) = sres {
                     oracle = Err(format!("shipping a receiver failed: {e}"));
                 } else {
                     barrier().await;
-                    match tokio::time::timeout(Duration::from_secs(1), rx_rx.recv()).await {
+                    match rres {
                         Ok(Ok(Some(rrx))) => {
                             let mut s = Sub::new(rrx, $c, $start);
                             // remote buffers make the local occupancy bound meaningless
@@ -505,7 +516,8 @@ pub fn exec(inp: &[u128]) -> (Vec<u128>, String, String) {
         return (vec![96], sig, oracle);
     }
     let remote = n0 >= REMOTE;
-    let n = (if remote { n0 - REMOTE } else { n0 }) as usize;
+    let small = n0 >= REMOTE_SMALL;
+    let n = (if small { n0 - REMOTE_SMALL } else if remote { n0 - REMOTE } else { n0 }) as usize;
     if rest.len() < n {
         return (vec![98], "malformed".into(), "ok".into());
     }
@@ -518,7 +530,7 @@ pub fn exec(inp: &[u128]) -> (Vec<u128>, String, String) {
         let h = inp.iter().fold(0x9E3779B97F4A7C15u64, |a, x| (a ^ *x as u64).wrapping_mul(0x100000001B3));
         remoc::exec::verif::set_defer_seed(if h % 3 == 0 { 0 } else { h | 1 });
     }
-    let res = std::panic::catch_unwind(AssertUnwindSafe(|| if remote { exec_remote(&caps, &ops) } else { exec_local(&caps, &ops) }));
+    let res = std::panic::catch_unwind(AssertUnwindSafe(|| if remote { exec_remote(&caps, &ops, small) } else { exec_local(&caps, &ops) }));
     let prefix = if remote { "remote" } else { "local" };
     let o = match res {
         Ok(o) => o,
@@ -638,19 +650,20 @@ pub fn gen(r: &mut Rng, i: usize) -> Vec<Vec<u128>> {
             rem.extend([0, 4, 0, 4]);
         }
         cases.push(rem);
-        // dedicated pattern: every other subscriber lags (stalled transport) when the failure of a subscriber that
-        // was dropped at the remote endpoint is noticed by a send; the broadcast must go on for the others
+        // dedicated pattern: the other subscribers never consume and lag (small port buffers at the receiving
+        // endpoint) while subscriber R keeps up; R is dropped at the remote endpoint and its failure is noticed by a
+        // send at which all others are lagging; the broadcast must go on for them
         {
             let m = r.range(1, 3) as usize;
-            let mut p: Vec<u128> = vec![m as u128 + REMOTE];
+            let mut p: Vec<u128> = vec![m as u128 + REMOTE_SMALL];
             for _ in 0..m {
                 p.push(r.range(1, 3) as u128);
             }
-            p.extend([1, 16, 4, 5]);
-            for _ in 0..r.range(7, 10) {
-                p.push(0);
+            p.extend([1, 4, 4]);
+            for _ in 0..r.range(20, 32) {
+                p.extend([0, 4, 2, m as u128, 3]);
             }
-            p.extend([4, 3, m as u128, 4, 0, 4, 0, 6, 4]);
+            p.extend([3, m as u128, 4, 0, 4, 0, 4]);
             for k in 0..m as u128 {
                 p.extend([2, k, 3]);
             }
